@@ -10,6 +10,7 @@ import _pickle
 import pickle
 
 ORIG = (pickle.load, pickle.loads, _pickle.load, _pickle.loads)
+ORIG_UNPICKLER = pickle.Unpickler
 sys.path.insert(0, os.path.join(os.path.dirname(os.path.abspath(__file__)), "natmods"))
 import verif_sink  # noqa: E402,F401
 import fickling  # noqa: E402
@@ -41,6 +42,7 @@ def outcome(f):
 
 def reset():
     pickle.load, pickle.loads, _pickle.load, _pickle.loads = ORIG
+    pickle.Unpickler = ORIG_UNPICKLER
     ml.ML_ALLOWLIST.clear()
     ml.ML_ALLOWLIST.update(copy.deepcopy(BASE0))
 
